@@ -148,7 +148,10 @@ def parse_structs(src, fname):
         end = match_brace(src, start, opener, "}" if opener == "{" else ")")
         body = src[start + 1:end - 1]
         fields = []
+        tags = {}
         for k, f in enumerate(split_top(body)):
+            fa = re.match(r"^((?:%s\s*)*)" % ATTR, f).group(1)
+            tg = re.search(r"#\[\s*tlv_tag\s*=\s*(\d+)\s*\]", fa)
             f = re.sub(r"^(?:%s\s*)+" % ATTR, "", f).strip()
             f = re.sub(r"^pub(?:\([^)]*\))?\s+", "", f)
             if opener == "{":
@@ -156,9 +159,11 @@ def parse_structs(src, fname):
                 if not fm:
                     raise GenError("cannot parse field %r of %s" % (f, name))
                 fields.append((fm.group(1), parse_type(fm.group(2))))
+                if tg:
+                    tags[fm.group(1)] = int(tg.group(1))
             else:
                 fields.append((str(k), parse_type(f)))
-        items.append(dict(name=name, tuple=(opener == "("), fields=fields, attrs=attrs, file=fname))
+        items.append(dict(name=name, tuple=(opener == "("), fields=fields, attrs=attrs, file=fname, tags=tags))
     return items
 
 
@@ -228,7 +233,7 @@ def read_source(repo, features=()):
 
 class Codec:
     def __init__(self, coq, enc, dec, wf, rt, uses_b=False, blob=False, minsize=0, streamed=False,
-                 ty=None, sw=None, ms=None, counted=()):
+                 ty=None, sw=None, ms=None, counted=(), tail=False):
         self.coq, self.enc, self.dec, self.wf, self.rt = coq, enc, dec, wf, rt
         self.uses_b, self.blob, self.minsize, self.streamed = uses_b, blob, minsize, streamed
         # typed predicate, size_wf proof, min_size proof (default: typed = wf, nothing to derive)
@@ -238,6 +243,7 @@ class Codec:
         if ms is None:
             self.minsize = 0
         self.counted = list(counted)   # arrays whose count bound stays a hypothesis
+        self.tail = tail               # consumes its reader to the end (TLV option stream): last field only
 
     def swT(self):
         return "(%s : size_wf %s %s %s MAX_MESSAGE_SIZE)" % (self.sw, P(self.enc), P(self.ty), P(self.wf))
@@ -261,9 +267,12 @@ class Translator:
         self.order = []
         for it in source["items"]:
             d = it["attrs"]["derive"]
-            if "Encodable" in d and "Decodable" in d:
+            if ("Encodable" in d and "Decodable" in d) or "SerBoltTlvOptions" in d:
                 if it["name"] in self.structs:
                     raise GenError("struct %s declared twice" % it["name"])
+                it["tlv"] = "SerBoltTlvOptions" in d
+                if it["tlv"] and ("Encodable" in d or it["tuple"]):
+                    raise GenError("%s: SerBoltTlvOptions on an unsupported struct shape" % it["name"])
                 self.structs[it["name"]] = it
                 self.order.append(it["name"])
             elif "SerBolt" in d:
@@ -273,6 +282,7 @@ class Translator:
         self.has_streamed = {}
         self.minsz = {}
         self.counted = {}
+        self.tail = {}
 
     # codec of a type reached through T::consensus_encode (Array elements, nested structs, ...)
     def consensus(self, ty, where):
@@ -332,11 +342,14 @@ class Translator:
             self.struct_info(name)
             return Codec("T_" + name, "enc_" + name, "dec_" + name, "wf_" + name, "rt_" + name,
                          self.uses_b[name], self.has_blob[name], self.minsz[name], self.has_streamed[name],
-                         ty="ty_" + name, sw="sw_" + name, ms="ms_" + name, counted=self.counted[name])
+                         ty="ty_" + name, sw="sw_" + name, ms="ms_" + name, counted=self.counted[name],
+                         tail=self.tail[name])
         raise GenError("%s: type %s%s has no codec in the model (Transaction / PsbtWrapper / StreamedPSBT are only "
                        "supported inside WithSize<>)" % (where, name, "<..>" if args else ""))
 
     def array(self, e, where="?"):
+        if e.tail:
+            raise GenError("%s: a TLV option stream cannot be an array element" % where)
         # the count bound follows from MAX_MESSAGE_SIZE iff max < minsize(elem) * 2^16 (checked again by Coq: eq_refl)
         if self.src["max_message_size"] < e.minsize * 65536:
             ty, sw, counted = "forallb %s" % P(e.ty), "sw_array _ _ _ MAX_MESSAGE_SIZE _ %s %s eq_refl" % (e.swT(), e.msT()), e.counted
@@ -357,6 +370,8 @@ class Translator:
             raise GenError("%s: numeric type %s not modelled" % (where, name))
         if name == "Option" and len(args) == 1:
             e = self.field(args[0], where)
+            if e.tail:
+                raise GenError("%s: a TLV option stream cannot be optional" % where)
             return Codec("option %s" % P(e.coq), "enc_option %s" % P(e.enc), "dec_option %s" % P(e.dec),
                          "wf_option %s" % P(e.wf), "rt_option _ _ _ %s" % P(e.rt), e.uses_b, e.blob, 1, e.streamed,
                          ty="wf_option %s" % P(e.ty), sw="sw_option _ _ _ _ %s" % e.swT(), ms="ms_option _ _", counted=e.counted)
@@ -370,7 +385,31 @@ class Translator:
         self.has_blob[name] = False
         self.has_streamed[name] = False
         self.counted[name] = []
+        self.tail[name] = False
+        if it.get("tlv"):
+            # #[derive(SerBoltTlvOptions)]: every field is Option<T> with a #[tlv_tag]; the value is written by
+            # T::consensus_encode (SerBoltTlvWriteWrap), records in ascending tag order
+            cs = []
+            for f, t in it["fields"]:
+                if t[0] != "Option" or len(t[1]) != 1 or f not in it["tags"]:
+                    raise GenError("%s.%s: a TLV options field must be Option<T> with #[tlv_tag = N]" % (name, f))
+                c = self.consensus(t[1][0], "%s.%s" % (name, f))
+                if c.tail or c.uses_b:
+                    raise GenError("%s.%s: unsupported TLV value type" % (name, f))
+                cs.append(c)
+            tl = [it["tags"][f] for f, _ in it["fields"]]
+            if len(set(tl)) != len(tl):
+                raise GenError("%s: duplicate tlv_tag (the derive's encoder asserts)" % name)
+            it["codecs"] = cs
+            self.minsz[name] = 0
+            self.tail[name] = True
+            self.counted[name] = ["%s.%s" % (name, f) for (f, t), c in zip(it["fields"], cs) if c.coq.startswith("list")]
+            return
         cs = [self.field(t, "%s.%s" % (name, f)) for f, t in it["fields"]]
+        for k, c in enumerate(cs):
+            if c.tail and k != len(cs) - 1:
+                raise GenError("%s.%s: a TLV option stream reads to the end of the message and must be the last field" % (name, it["fields"][k][0]))
+        self.tail[name] = bool(cs) and cs[-1].tail
         it["codecs"] = cs
         self.uses_b[name] = any(c.uses_b for c in cs)
         self.has_blob[name] = any(c.blob for c in cs)
@@ -442,8 +481,8 @@ class Translator:
         w = o.append
         w("(** GENERATED by tools/gen_wire.py from <repo>/vls-protocol/src/{model,msgs}.rs — do not edit.\n"
           "    Regenerated and re-proved on every run of `verif.py check C19` (<repo> = $VERIF_REPO or /repo). *)")
-        w("From Coq Require Import List NArith Bool Lia.")
-        w("From VLS Require Import Base.Codec Model.Wire Proofs.WireProofs.")
+        w("From Coq Require Import List Arith NArith Bool Lia.")
+        w("From VLS Require Import Base.Codec Base.Tlv Model.Wire Proofs.WireProofs.")
         w("Import ListNotations.\nOpen Scope N_scope.\n")
         w("Definition MAX_MESSAGE_SIZE : N := %d.\n" % self.src["max_message_size"])
         w("Section Gen.\nVariable B : blob_ops.\nHypothesis HB : blob_laws B.\n")
@@ -466,6 +505,9 @@ class Translator:
                 continue
             fs = [f for f, _ in it["fields"]]
             mid = it["attrs"]["message_id"]
+            if it.get("tlv"):
+                self.coq_tlv(w, n, it, fs, cs)
+                continue
             w("(* %s: struct %s%s *)" % (it["file"], n, "" if mid is None else "  #[message_id(%d)]" % mid))
             if fs:
                 w("Record T_%s : Type := Build_%s {\n%s\n}." % (n, n, ";\n".join(
@@ -483,10 +525,17 @@ class Translator:
                 wfe = "%s (%s_%s x) &&\n  (%s)" % (c.wf, n, f, wfe)
             w("Definition wf_%s (x : T_%s) : bool :=\n  %s." % (n, n, wfe))
             projs = " ".join("%s_%s" % (n, f) for f in fs)
-            w("Lemma rt_%s : roundtrip enc_%s dec_%s wf_%s.\nProof.\n  intros [%s] rest Hw. unfold enc_%s, dec_%s, wf_%s in *.%s rt_begin.\n%s  rt_end.\nQed.\n" % (
-                n, n, n, n, " ".join("v_" + f for f in fs), n, n, n,
-                (" cbn [%s] in *." % projs) if fs else "",
-                "".join("  rt_one (%s).\n" % c.rt for c in cs)))
+            if self.tail[n]:
+                w("(* closed by a TLV option stream: decodes its own encoding, consuming the reader to the end *)")
+                w("Lemma rt_%s : roundtrip_end enc_%s dec_%s wf_%s.\nProof.\n  intros [%s] Hw. unfold enc_%s, dec_%s, wf_%s in *.%s rewrite ?app_nil_r. rt_begin.\n%s  rt_last (%s).\n  rt_end.\nQed.\n" % (
+                    n, n, n, n, " ".join("v_" + f for f in fs), n, n, n,
+                    (" cbn [%s] in *." % projs) if fs else "",
+                    "".join("  rt_one (%s).\n" % c.rt for c in cs[:-1]), cs[-1].rt))
+            else:
+                w("Lemma rt_%s : roundtrip enc_%s dec_%s wf_%s.\nProof.\n  intros [%s] rest Hw. unfold enc_%s, dec_%s, wf_%s in *.%s rt_begin.\n%s  rt_end.\nQed.\n" % (
+                    n, n, n, n, " ".join("v_" + f for f in fs), n, n, n,
+                    (" cbn [%s] in *." % projs) if fs else "",
+                    "".join("  rt_one (%s).\n" % c.rt for c in cs)))
             tye = "true"
             for f, c in reversed(list(zip(fs, cs))):
                 tye = "%s (%s_%s x) &&\n  (%s)" % (c.ty, n, f, tye)
@@ -529,11 +578,12 @@ class Translator:
             if n in self.arm_of:
                 k = self.arm_of[n]
                 w("Lemma arm_%s : forall x, wf_%s x = true -> exists e, In e table /\\ e_id e = %d /\\\n"
-                  "  forall rest, e_dec e (enc_%s x ++ rest) = Some (M_%s x, rest).\n"
+                  "  e_dec e (enc_%s x) = Some (M_%s x, []).\n"
                   "Proof.\n  intros x Hw. exists {| e_id := %d; e_dec := dec_map M_%s dec_%s |}.\n"
                   "  split; [exact (nth_error_In table %d eq_refl)|]. split; [reflexivity|].\n"
-                  "  intros rest. cbn [e_dec]. unfold dec_map. rewrite (rt_%s x rest Hw). reflexivity.\nQed."
-                  % (n, n, mid, n, n, mid, n, n, k, n))
+                  "  cbn [e_dec]. unfold dec_map. rewrite (%s x Hw). reflexivity.\nQed."
+                  % (n, n, mid, n, n, mid, n, n, k,
+                     ("rt_%s" % n) if self.tail[n] else ("roundtrip_to_end _ _ _ rt_%s" % n)))
             else:
                 # kept as a hypothesis so that the definitions above stay usable (the executable
                 # comparison still runs); every theorem below then carries it as a premise and
@@ -541,9 +591,9 @@ class Translator:
                 w("(* OPEN OBLIGATION (cannot hold): %s derives SerBolt (id %d) but no arm of the dispatch generated for\n"
                   "   enum Message builds a %s under that id, so msgs::from_vec cannot return it. *)\n"
                   "Hypothesis arm_%s : forall x, wf_%s x = true -> exists e, In e table /\\ e_id e = %d /\\\n"
-                  "  forall rest, e_dec e (enc_%s x ++ rest) = Some (M_%s x, rest)." % (n, mid, n, n, n, mid, n, n))
+                  "  e_dec e (enc_%s x) = Some (M_%s x, [])." % (n, mid, n, n, n, mid, n, n))
         w("\nLemma table_complete : forall m, wf_msg m = true ->\n  fits 2 (msg_id m) = true /\\\n"
-          "  exists e, In e table /\\ e_id e = msg_id m /\\ forall rest, e_dec e (enc_msg m ++ rest) = Some (m, rest).\n"
+          "  exists e, In e table /\\ e_id e = msg_id m /\\ e_dec e (enc_msg m) = Some (m, []).\n"
           "Proof.\n  intros m Hw. destruct m; (split; [reflexivity|]); cbn [wf_msg msg_id enc_msg] in *.\n%s\nQed.\n"
           % "\n".join("  - exact (arm_%s x Hw)." % n for n in self.msgs))
         w("(** every bound in [wf_msg] that is not a typing fact follows from the encoding fitting MAX_MESSAGE_SIZE%s *)" % (
@@ -556,6 +606,44 @@ class Translator:
           % "\n".join("  - apply (sw_%s x Ht). lia." % n for n in self.msgs))
         w("End Gen.")
         return "\n".join(o) + "\n"
+
+    def coq_tlv(self, w, n, it, fs, cs):
+        """a #[derive(SerBoltTlvOptions)] struct: Base/Tlv.v does the work"""
+        tags = it["tags"]
+        by_tag = sorted(zip(fs, cs), key=lambda fc: tags[fc[0]])
+        projs = " ".join("%s_%s" % (n, f) for f in fs)
+        w("(* %s: struct %s  #[derive(SerBoltTlvOptions)]  tags %s *)" % (
+            it["file"], n, ", ".join("%s=%d" % (f, tags[f]) for f, _ in by_tag)))
+        w("Record T_%s : Type := Build_%s {\n%s\n}." % (n, n, ";\n".join(
+            "  %s_%s : option %s" % (n, f, P(c.coq)) for f, c in zip(fs, cs))))
+        w("Definition tlvf_%s (x : T_%s) : tlv_fields :=\n  [%s]." % (n, n, ";\n   ".join(
+            "(%d, option_map %s (%s_%s x))" % (tags[f], P(c.enc), n, f) for f, c in by_tag)))
+        w("Definition enc_%s (x : T_%s) : bytes := enc_tlv (tlvf_%s x)." % (n, n, n))
+        body = "Some (Build_%s%s, [])" % (n, "".join(" v_" + f for f in fs))
+        for f, c in reversed(by_tag):
+            body = "bind (dec_tlv_field %s (tlv_lookup %d recs)) (fun v_%s =>\n    %s)" % (P(c.dec), tags[f], f, body)
+        w("Definition dec_%s : dec_t T_%s := fun bs =>\n  bind (parse_tlv (length bs) None bs) (fun recs =>\n"
+          "    if tlv_unknown_ok [%s] recs then\n    %s\n    else None)." % (
+              n, n, "; ".join(str(tags[f]) for f, _ in by_tag), body))
+        wfe = "true"
+        for f, c in reversed(by_tag):
+            wfe = "wf_option %s (%s_%s x) &&\n  (%s)" % (P(c.wf), n, f, wfe)
+        w("Definition wf_%s (x : T_%s) : bool :=\n  tags_above None (tlvf_%s x) &&\n  (%s)." % (n, n, n, wfe))
+        steps = "".join(
+            "  match goal with Hw : (_ && _) = true |- _ => apply andb_true_iff in Hw; destruct Hw as [Hf Hw] end.\n"
+            "  rewrite (lookup_present L None %d (option_map %s v_%s) Htags ltac:(cbn [In]; repeat (first [left; reflexivity | right]))).\n"
+            "  rewrite (dec_tlv_field_rt %s %s %s v_%s (%s) Hf). cbn [bind]. clear Hf.\n"
+            % (tags[f], P(c.enc), f, P(c.enc), P(c.dec), P(c.wf), f, c.rt) for f, c in by_tag)
+        w("Lemma rt_%s : roundtrip_end enc_%s dec_%s wf_%s.\nProof.\n"
+          "  intros [%s] Hw. unfold wf_%s, dec_%s, enc_%s, tlvf_%s in *. cbn [%s] in *.\n"
+          "  apply andb_true_iff in Hw. destruct Hw as [Htags Hw].\n"
+          "  match goal with |- context [parse_tlv _ None (enc_tlv ?L0)] => set (L := L0) in * end.\n"
+          "  rewrite (parse_enc_tlv L _ None Htags (Nat.le_refl _)). cbn [bind].\n"
+          "  pose proof (unknown_ok_present L) as Hu. unfold L in Hu at 1. cbn [map fst] in Hu. rewrite Hu. clear Hu.\n"
+          "%s  reflexivity.\nQed." % (n, n, n, n, " ".join("v_" + f for f in fs), n, n, n, n, projs, steps))
+        w("Definition ty_%s : T_%s -> bool := wf_%s." % (n, n, n))
+        w("Lemma sw_%s : size_wf enc_%s ty_%s wf_%s MAX_MESSAGE_SIZE.\nProof. exact (sw_same _ _ _). Qed." % (n, n, n, n))
+        w("Lemma ms_%s : min_size enc_%s ty_%s 0.\nProof. exact (ms_zero _ _). Qed.\n" % (n, n, n))
 
     # -------------------------------------------------------------- Rust
     def rust(self, repo):
@@ -591,9 +679,10 @@ class Translator:
               "}" % (n, n, n, n))
         w("pub const TYPES: &[TypeInfo] = &[")
         for n in self.msgs:
-            w('    TypeInfo { name: "%s", id: %d, has_blob: %s, has_streamed: %s, dispatched: %s, gen: |g| Box::new(<%s as Arb>::arb(g)) },' % (
+            w('    TypeInfo { name: "%s", id: %d, has_blob: %s, has_streamed: %s, has_tlv: %s, dispatched: %s, gen: |g| Box::new(<%s as Arb>::arb(g)) },' % (
                 n, self.structs[n]["attrs"]["message_id"], "true" if self.has_blob[n] else "false",
-                "true" if self.has_streamed[n] else "false", "true" if n in self.table else "false", n))
+                "true" if self.has_streamed[n] else "false", "true" if self.tail[n] else "false",
+                "true" if n in self.table else "false", n))
         w("];")
         w("/// variant name, canonical structure (as received), re-encoded bytes of a decoded message")
         w("pub fn describe(m: &Message) -> (String, String, Vec<u8>) {\n    match m {")
@@ -604,7 +693,12 @@ class Translator:
         return "\n".join(o) + "\n"
 
 
-def generate(repo=None, features=(), write=True):
+# the harness builds vls-protocol with its `developer` feature (harness/Cargo.toml.in), as the crate's own
+# tests do, so that HsmdDevPreinit / HsmdDevPreinit2 (TLV options) / HsmdDevPreinitReply are in the registry
+FEATURES = ("developer",)
+
+
+def generate(repo=None, features=FEATURES, write=True):
     repo = repo or os.environ.get("VERIF_REPO", "/repo")
     t = Translator(read_source(repo, features)).run()
     coq, rust = t.coq(repo), t.rust(repo)
@@ -621,7 +715,7 @@ def generate(repo=None, features=(), write=True):
 
 if __name__ == "__main__":
     try:
-        rep = generate(features=tuple(a for a in sys.argv[1:] if not a.startswith("-")))
+        rep = generate(features=tuple(a for a in sys.argv[1:] if not a.startswith("-")) or FEATURES)
     except GenError as e:
         print("gen_wire: " + str(e), file=sys.stderr)
         sys.exit(1)
